@@ -114,11 +114,11 @@ def check_units(ctx, db):
         ctx.touch(f)
         st = {norm(x.child('lhs').text()): x for x in f.walk() if is_assign(x) and norm(x.child('lhs').text()) in (pfx + 'precision', pfx + 'unit')}
         ok = len(st) == 2 and resolve(f, st[pfx + 'precision'].child('rhs')) == R1 and resolve(f, st[pfx + 'unit'].child('rhs')) in ('(%sprecision / %s)' % (pfx, R0), '(%s / %s)' % (R1, R0))
-        ok = ok and st[pfx + 'precision'].id < st[pfx + 'unit'].id
+        ok = ok and st[pfx + 'precision'].pos < st[pfx + 'unit'].pos
         ctx.check(ok, 'R-CLONE', qn + '/units-formula', f.loc(), 'precision = real[1]; unit = precision / real[0]',
                   'UNITS formula differs: %s' % {k: resolve(f, v.child('rhs')) for k, v in st.items()})
         sw = [c for c in f.calls('gdstk::big_endian_swap64')]
-        ctx.check(len(sw) == 1 and all(sw[0].id < x.id for x in st.values()), 'R-PAIRCALL', qn + '/swap-before-decode', f.loc(), 'the two reals are byte-swapped before they are decoded')
+        ctx.check(len(sw) == 1 and all(sw[0].pos < x.pos for x in st.values()), 'R-PAIRCALL', qn + '/swap-before-decode', f.loc(), 'the two reals are byte-swapped before they are decoded')
     f = db.fn('gdstk::read_gds')
     st = [x for x in f.walk() if is_assign(x) and norm(x.child('lhs').text()) in ('library.precision', 'library.unit', 'factor')]
     got = sorted((norm(x.child('lhs').text()), resolve(f, x.child('rhs'))) for x in st)
@@ -157,8 +157,11 @@ def check_header_clones(ctx, db):
         return ss[i:j + 1]
     is_len = lambda s: s.k == 'DeclStmt' and any(v is not None and v.n == 'len' for v in s.c)
     is_units_write = lambda s: s.k == 'CallExpr' and s.callee == 'fwrite' and 'units' in s.args[0].text() and 'buffer' not in s.args[0].text()
-    a = canon_stmts(wg, between(wg, is_len, is_units_write))
-    b = canon_stmts(gi, between(gi, is_len, is_units_write))
+    # what is compared is what is emitted: the declarations (length, header words, units) and the swap / fwrite calls. How the
+    # name length is rounded up to even (`if (len % 2) len++`, `len += len % 2`) is C03's parity obligation, not a clone property.
+    emits = lambda ss: [s_ for s_ in ss if s_.k in ('DeclStmt', 'CallExpr')]
+    a = canon_stmts(wg, emits(between(wg, is_len, is_units_write)))
+    b = canon_stmts(gi, emits(between(gi, is_len, is_units_write)))
     clone.check_family(ctx, 'R-CLONE', 'gds-header', [('Library::write_gds[header]', wg.loc(), a), ('gdswriter_init[header]', gi.loc(), b)], 2)
     is_end = lambda s: s.k == 'DeclStmt' and any(v is not None and v.n == 'buffer_end' for v in s.c)
     is_close = lambda s: s.k == 'CallExpr' and s.callee == 'fclose'
@@ -303,7 +306,7 @@ def check_timestamp(ctx, db):
     sw = [c for c in f.calls('gdstk::big_endian_swap16') if norm(c.args[0].text()) == 'new_tm_buffer']
     cp = [c for c in f.calls('memcpy') if norm(c.args[0].text()).startswith('(new_tm_buffer + 6)')]
     st = sorted(x.child('lhs').child('idx').cv for x in f.walk() if is_assign(x) and x.child('lhs').k == 'ArraySubscriptExpr' and norm(x.child('lhs').child('base').text()) == 'new_tm_buffer')
-    ok = len(sw) == 1 and sw[0].args[1].cv == 6 and len(cp) == 1 and cp[0].args[2].cv == 12 and st == [0, 1, 2, 3, 4, 5] and sw[0].id < cp[0].id
+    ok = len(sw) == 1 and sw[0].args[1].cv == 6 and len(cp) == 1 and cp[0].args[2].cv == 12 and st == [0, 1, 2, 3, 4, 5] and sw[0].pos < cp[0].pos
     ctx.check(ok, 'R-CONST', 'gds_timestamp/buffer-layout', f.loc(), 'six words are filled, swapped to big-endian, then duplicated (modification + access time)')
     rd = {x.child('lhs').n: norm(x.child('rhs').text()) for x in f.walk() if is_assign(x) and x.child('lhs').k == 'MemberExpr' and norm(x.child('lhs').text()).startswith('result.tm_')}
     wr = {x.child('lhs').child('idx').cv: norm(x.child('rhs').text()) for x in f.walk() if is_assign(x) and x.child('lhs').k == 'ArraySubscriptExpr' and norm(x.child('lhs').child('base').text()) == 'new_tm_buffer'}
@@ -423,7 +426,7 @@ def check_payload_strings(ctx, db):
                 continue
             arm = next((a for a in c.ancestors() if a.k in ('CaseStmt', 'DefaultStmt')), None)
             scope = arm if arm is not None else f.body
-            term = [x for x in scope.walk() if is_assign(x) and x.id < c.id and _strip_casts(x.child('lhs')).k == 'ArraySubscriptExpr' and lvalue_key(_strip_casts(_strip_casts(x.child('lhs')).child('base') or _strip_casts(x.child('lhs')).c[0])) == key and x.child('rhs').cv == 0]
+            term = [x for x in scope.walk() if is_assign(x) and x.pos < c.pos and _strip_casts(x.child('lhs')).k == 'ArraySubscriptExpr' and lvalue_key(_strip_casts(_strip_casts(x.child('lhs')).child('base') or _strip_casts(x.child('lhs')).c[0])) == key and x.child('rhs').cv == 0]
             ctx.check(bool(term), 'R-BOUND.cstring', '%s/%s@%s' % (qn.replace('gdstk::', ''), name, c.loc()), c.loc(), 'the arm terminates the payload before handing it to %s' % name,
                       'the record payload is passed to %s, which reads up to a NUL byte: an even-length name has none, so bytes left in the buffer by earlier records become part of the name' % name)
     ctx.require('R-BOUND.cstring payload uses', n, 8)
